@@ -368,7 +368,7 @@ def run(ctx):
     if corp:
         evaluate(ctx, corp, res)
     res['scopes']['corpus'] = len(corp)
-    n = 30000 if ctx.deep else 3000
+    n = (150000 if ctx.tier == 'thorough' else 30000) if ctx.deep else 3000
     jobs = [('rs' if i % 2 == 0 else 'us', random_trace(ctx.rng)) for i in range(n)]
     evaluate(ctx, jobs, res)
     res['scopes']['generated'] = n
